@@ -109,12 +109,14 @@ def dumpstruct_record(rid, rnd):
             m = re.match(r"- ([^:]+): ", ln)
             if m:
                 names.append([ord(c) for c in m.group(1)])
+        esc = out.count("\x1b")
         if lines is None:
-            rec["obs"] = {"status": "unparseable", "lines": [], "fields": names, "text": out[:300]}
+            rec["obs"] = {"status": "unparseable", "lines": [], "fields": names, "text": out[:300], "escapes": esc}
         else:
-            rec["obs"] = {"status": "ok", "lines": lines, "fields": names}
+            rec["obs"] = {"status": "ok", "lines": lines, "fields": names, "escapes": esc}
     except Exception as e:  # noqa: BLE001
-        rec["obs"] = {"status": "error", "lines": [], "fields": [], "exc": f"{type(e).__name__}: {e}"[:150]}
+        rec["obs"] = {"status": "error", "lines": [], "fields": [], "escapes": 0, "exc": f"{type(e).__name__}: {e}"[:150]}
+    rec.setdefault("color", False)
     return rec
 
 
@@ -134,6 +136,16 @@ def int_records(rid, rnd):
         uh = {8: utils.u8, 16: utils.u16, 32: utils.u32, 64: utils.u64}.get(bits) if rnd.random() < 0.5 else None
         back = uh(b, e, v < 0) if uh else utils.unpack(b, bits, e, v < 0)
         rec["obs"] = {"status": "ok", "b": list(b), "back": A.pint(back)}
+    except Exception as ex:  # noqa: BLE001
+        rec["obs"] = {"status": "error", "b": [], "back": A.pint(0), "exc": f"{type(ex).__name__}: {ex}"[:120]}
+    out.append(rec)
+    # no width at all: the fewest bytes that hold the value, also for negative ones
+    k = rnd.choice([8, 16, 24, 32, 64])
+    mv = rnd.choice([0, 1, -1, (1 << k) - 1, 1 << k, -(1 << (k - 1)), -(1 << (k - 1)) - 1, -(1 << k) + 1, -(1 << k), rnd.randrange(-(1 << k), 1 << k)])
+    rec = {"id": rid + 3, "kind": "packmin", "v": A.pint(mv), "bits": 0, "endian": e}
+    try:
+        b = utils.pack(mv, endian=e) if rnd.random() < 0.5 else utils.pack(mv, None, e)
+        rec["obs"] = {"status": "ok", "b": list(b), "back": A.pint(utils.unpack(b, endian=e, sign=mv < 0))}
     except Exception as ex:  # noqa: BLE001
         rec["obs"] = {"status": "error", "b": [], "back": A.pint(0), "exc": f"{type(ex).__name__}: {ex}"[:120]}
     out.append(rec)
